@@ -155,6 +155,17 @@ func (vc *VC) callFunc(callee *types.Func, recv Value, recvExpr ast.Expr, call *
 	// interface method?
 	if sig.Recv() != nil {
 		if _, isI := vc.underlying(sig.Recv().Type()).(*types.Interface); isI {
+			if callee.Name() == "Unwrap" && sig.Params().Len() == 0 && sig.Results().Len() == 1 {
+				// the multi-error convention of package errors (errors.Join): Unwrap()
+				// []error lists the wrapped errors, none of them nil, at least one.
+				// Assumed (listed in the trusted base).
+				if sl, ok := sig.Results().At(0).Type().(*types.Slice); ok && vc.ss.sortOf(sl.Elem()) == SErr {
+					r := vc.freshConst("unwrapped", sig.Results().At(0).Type())
+					vc.assume(st.pc, Term{fmt.Sprintf("(and (> (len.%s %s) 0) (forall ((j! Int)) (=> (and (<= 0 j!) (< j! (len.%s %s))) (not (= (select (arr.%s %s) j!) err.nil)))))", r.Sort, r.S, r.Sort, r.S, r.Sort, r.S), SBool, nil})
+					vc.axiomsUsed = append(vc.axiomsUsed, "assumed: Unwrap() []error has no nil entries")
+					return []Value{r}
+				}
+			}
 			args := vc.packVariadic(sig, vc.evalArgs(call, sig, st), call, st)
 			return vc.ifaceCall(callee, key, vc.term(recv, call.Pos()), args, call, st)
 		}
